@@ -77,6 +77,10 @@ example : Inv11 envN cfg { resp := none, dl := none } [.failure, .nextN]
     { disk := dBoot, upc := .copyCfg, bq := [.failure, .nextN] } :=
   Inv11_start envN cfg _ _ dBoot ⟨_, rfl, rfl⟩ (by intro op h; simp at h; rcases h with rfl | rfl <;> rfl)
 
+/-- C11: a success report in the middle of an episode makes the booting patch 2 (file intact, slots valid,
+    not concerned by the episode's responses) a last good patch the monitor tracks from then on. -/
+example : (G11.established envN none {} (viewOfDisk dBoot)).map (·.1) = some 2 := by decide
+
 /-- C04: the hypotheses of `crash_in_progress` are met while patch 2 boots and its failure is reported. -/
 example : Settled dBoot cfg.version ∧ (loadPatchesState dBoot).booting = some m2 :=
   ⟨⟨_, rfl, rfl⟩, by simp [loadPatchesState, dBoot, d, JFile.getD]⟩
